@@ -257,6 +257,64 @@ func VerifC10MixedWalk() {
 	verifReach("end")
 }
 
+// VerifC10BoundedWalk: walks inside bounds that cut the stored data. After SeekFirst or SeekLast, three steps of
+// arbitrary direction and span — so a walk can run into a bound, collapse onto it and turn around — return at
+// every step exactly the samples inside the reported view.
+func VerifC10BoundedWalk() {
+	mk := func(a, b int64) []byte {
+		var out []byte
+		for _, v := range []int64{a, b} {
+			var x [8]byte
+			telem.ByteOrder.PutUint64(x[:], uint64(v))
+			out = append(out, x[:]...)
+		}
+		return out
+	}
+	specs := []domain.VerifDomainSpec{
+		{Start: 10, End: 15, Data: mk(10, 14)},
+		{Start: 30, End: 35, Data: mk(30, 34)},
+	}
+	all := []telem.TimeStamp{10, 14, 30, 34}
+	ddb := domain.VerifBuildDB(specs)
+	ch := channel.Channel{Key: 1, Name: "idx", IsIndex: true, Index: 1, DataType: telem.TimeStampT}
+	db := &DB{domain: ddb, closed: &atomic.Bool{}, leadingAlignment: &atomic.Uint32{}, wrapError: func(err error) error { return err },
+		resolver: newOffsetResolver(ch.DataType, ddbInstr()), cfg: Config{Channel: ch}}
+	db.idx = &index.Domain{DB: ddb, Channel: ch}
+	ctx := context.Background()
+	b := telem.TimeRange{Start: telem.TimeStamp(verifInt64("bounds.start")), End: telem.TimeStamp(verifInt64("bounds.end"))}
+	verifAssume(b.Start >= 0 && b.Start < b.End && b.End <= 40)
+	it, err := db.OpenIterator(IterRange(b))
+	verifAssume(err == nil)
+	if verifBool("from-the-end") {
+		verifAssume(it.SeekLast(ctx))
+	} else {
+		verifAssume(it.SeekFirst(ctx))
+	}
+	steps := verifParam("steps", 3)
+	for k := 0; k < steps; k++ {
+		span := telem.TimeSpan(verifInt64("span"))
+		verifAssume(span > 0 && span <= 40)
+		var valid bool
+		if verifBool("forward") {
+			valid = it.Next(ctx, span)
+		} else {
+			valid = it.Prev(ctx, span)
+		}
+		v := it.View()
+		got := verifFrameStamps(it)
+		verifObserve("view.start", int64(v.Start))
+		verifObserve("view.end", int64(v.End))
+		for _, g := range got {
+			verifObserve("got", int64(g))
+		}
+		verifAssert("bounded-view-inside-bounds", v.Start >= b.Start && v.End <= b.End)
+		verifAssert("bounded-exact", verifHExactly(got, all, v))
+		verifAssert("bounded-valid-iff-samples", valid == (len(got) > 0))
+	}
+	verifAssert("close", it.Close() == nil)
+	verifReach("end")
+}
+
 // VerifC10AutoWalk: automatic chunk-sized steps. Over three gapped domains (fixed layout, 2/3/2 samples) and an
 // arbitrary chunk size, a forward traversal by Next(AutoSpan) from SeekFirst — and a backward one by
 // Prev(AutoSpan) from SeekLast — returns at every step at most one chunk of samples, exactly the stored samples
